@@ -484,3 +484,26 @@ def check_C19(c):
     c.assumptions += ["SetSFTPExtensions is process-global: this driver runs alone in its process and restores the default list",
                       "'any other name' is read as: any name outside the supported set (a supported extension that is not advertised is not constrained)"]
     return c.finish()
+
+
+def check_C16(c):
+    c.model("Listing", "Listing.quick.cfg", note="exhaustive: directory size <= 8, batch size in {1,2,3}, EVERY legal lister behaviour; exactness, no duplicate, termination (liveness)")
+    c.model("Listing", "Listing.abl_IncByReturned.cfg", must="fail", expect="Inv_C16_Exact", note="offset advanced by the buffer size instead of the entries returned")
+    c.model("Listing", "Listing.abl_StatusOnlyWhenEmpty.cfg", must="fail", expect="Inv_C16_Exact", note="EOF returned together with entries drops them")
+    scen, cases = export_table(c, "ListingScen", "ListingScen.cfg", "scen_ls.json")
+    rc, out, path = c.run("TestVerif_Listing", env={"VERIF_SCEN": scen}, timeout=3000)
+    count_traces(c, path, ["backend", "n", "b", "variant", "script"])
+    c.cov["exhaustive"] = False
+    c.cov["rule"] = ("a case is one (directory content, batch size, lister behaviour): all 313 terminated behaviours of Listing.tla (n<=7, B<=3) replayed through a scripted ListerAt on the real "
+                     "RequestServer, plus sizes 0..2B+2 for B in {22,100} in four lister shapes, plus real directories on the os-backed Server around the 128-entry batch; names include long and "
+                     "non-UTF-8 ones, '.' and '..' are injected in a third of the cases")
+    found = c.validate("TraceLs", "TraceLs.cfg", path)
+    for f in found:
+        head = f["trace"][0]
+        msg = f["state"].get("c16", "").strip('"')
+        kind = "lost" if "lost" in msg else ("dup" if "dupl" in msg else ("hang" if "terminate" in msg else "other"))
+        c.violation("Inv_C16,backend=%s,%s" % (head.get("backend"), kind), "%s (n=%s b=%s script=%s)" % (msg, head.get("n"), head.get("b"), json.dumps(head.get("script"))[:200]),
+                    {"module": "TraceLs", "scenario": head, "result": {k: v for k, v in f["line"].items() if k not in ("got", "want")},
+                     "got": f["line"].get("got", [])[:50], "want": f["line"].get("want", [])[:50]})
+    c.assumptions += ["MaxFilelist is a package variable: the driver sets it per case and runs serialized", "entry names are compared as hex strings (non-UTF-8 names survive JSON)"]
+    return c.finish()
